@@ -612,7 +612,8 @@ int main(int argc, char** argv) {
             if (o.r == R_BLOCK) { ++blocked_ops; continue; }
             ++transitions;
             if (o.r == R_VIOL) {
-                bool mine = (o.prop == PROP);
+                // "a region handed to a reader lies inside the committed data" is stated by C02 as well as by C01
+                bool mine = (o.prop == PROP) || (PROP == "C02" && (o.clause == "read-beyond-committed" || o.clause == "wrong-byte"));
                 if (mine) {
                     std::vector<Op> p = path_to((uint32_t)qi); p.push_back(op);
                     record(o.prop, o.clause, o.detail, path_str(p));
